@@ -17,6 +17,7 @@ import (
 	"github.com/goatcms/goatcore/filesystem/filespace/diskfs"
 	"github.com/goatcms/goatcore/filesystem/filespace/memfs"
 
+	"verif/explore"
 	"verif/fsx"
 	"verif/fw"
 	"verif/models/treefs"
@@ -390,6 +391,11 @@ func skipOp(t *treefs.Node, op treefs.Op) bool {
 
 func run(c *fw.Ctx) {
 	fsx.CheckSizes = true
+	// part 0: concurrent creations on one disk filespace (schedule exploration over host fs calls)
+	runConc(c)
+	if c.R.InfraError != "" {
+		return
+	}
 	contents, nspell, views, bufs := params(c.Thorough())
 	states := fsx.Reach(fsx.Mutators(contents), 2, 1)
 	alphabet := fsx.Alphabet(contents, nspell, views, false, bufs)
@@ -525,6 +531,14 @@ func treeFromFlat(flat map[string]string) *treefs.Node {
 
 func replay(w json.RawMessage) (*fw.Violation, error) {
 	fsx.CheckSizes = true
+	var cw struct {
+		Program string   `json:"program"`
+		Spec    ConcSpec `json:"spec"`
+		Choices []int    `json:"choices"`
+	}
+	if err := json.Unmarshal(w, &cw); err == nil && strings.HasPrefix(cw.Program, "conc/") {
+		return explore.ReplayProgram(mkConc(cw.Spec), cw.Choices)
+	}
 	var lw struct {
 		Live *liveWit `json:"live"`
 	}
